@@ -215,7 +215,7 @@ def main(tier, seed, replay=None):
         return replay_file(replay)
     common.ensure_worker("chk")
     run = common.Run(PROP, tier, seed, level="translation_validation")
-    n = 400 if tier == "quick" else 40000
+    n = 1200 if tier == "quick" else 40000
     cases = [(seed, i, 3 if i % 4 == 0 else 1) if tier == "quick" else (seed, i, 3) for i in range(n)]
     results = common.run_sharded(run_case, cases)
     for name in sorted(PROBES):
